@@ -213,8 +213,20 @@ class Interp:
         self.summaries = {}        # qualname -> python callable(interp, args, kwargs) used instead of the body (callee contract)
         self.loop_specs = {}       # (qualname, ordinal) -> LoopSpec
         self.trace = []            # effect trace (file writes, callbacks ...)
+        self.install_default_summaries()
         self.steps = 0
         self.max_steps = int(os.environ.get('PVC_MAX_STEPS', '4000000'))
+
+    def install_default_summaries(self):
+        """what the encoding drops (DESIGN 2.1): source-location strings, coloured warnings, error-string formatting"""
+        co = 'pymoto.core_objects:'
+        self.summaries[co + 'get_init_str'] = lambda it, a, k: '<init location>'
+        self.summaries[co + 'get_init_loc'] = lambda it, a, k: ('<file>', 0, '<func>')
+        self.summaries[co + 'stderr_warning'] = lambda it, a, k: it.trace.append(('warn', 'stderr_warning'))
+        self.summaries[co + 'err_fmt'] = lambda it, a, k: '<error details>'
+        self.summaries[co + 'fmt_slice'] = lambda it, a, k: '<slice>'
+        self.summaries[co + 'Signal._err_str'] = lambda it, a, k: '<signal details>'
+        self.summaries[co + 'Module._err_str'] = lambda it, a, k: '<module details>'
 
     # ---------------------------------------------------------------------------------------- module loading
     def load(self, modname):
@@ -647,6 +659,8 @@ class Interp:
             raise cur
         # error-message contents are dropped (DESIGN 2.1): only the class is evaluated
         node = st.exc
+        if isinstance(node, ast.Call) and isinstance(node.func, ast.Attribute) and node.func.attr == 'with_traceback':
+            node = node.func.value
         if isinstance(node, ast.Call):
             fn = node.func
             if isinstance(fn, ast.Call) and isinstance(fn.func, ast.Name) and fn.func.id == 'type':
